@@ -228,6 +228,18 @@ fn routes(alpha: &[Member<Id>], rep: &mut Report) -> serde_json::Value {
         .map(|(f, r, seq)| {
             let mut n = 0u64;
             let show = |seq: &Vec<Member<Id>>| seq.iter().map(show_member).collect::<Vec<_>>().join(",");
+            // (d) forgetting: the forget-timer of a Down record removes that
+            // record and leaves every other record exactly where it was
+            for m in f.iter_membership_state().filter(|m| m.state() == State::Down).cloned().collect::<Vec<_>>() {
+                let mut c = f.clone();
+                let out = run_event(&mut c, &Ev::Timer(TimerKey::RemoveDown(*m.id())), &[]);
+                let mut want = r.clone();
+                want.remove(&m.id().addr);
+                n += 1;
+                if out.panic.is_some() || !out.res.is_ok() || view_ref(&c) != want || c.iter_membership_state().count() != want.len() {
+                    return Err(format!("after [{}], forgetting {} gives {} ({:?}); expected every other record untouched: {:?}", show(seq), show_member(&m), View::of(&c).show(), out.res, want));
+                }
+            }
             for u in alpha {
                 // (b) third party
                 {
